@@ -235,7 +235,7 @@ type blobSystem struct {
 
 func newBlobSystem(variant string, thorough bool) *blobSystem {
 	s := &blobSystem{variant: variant, thorough: thorough}
-	s.contents = []string{cV1, cV2, cRJ, cEmpty, cInv}
+	s.contents = []string{cV1, cV2, cRJ, cEmpty, cInv, cBlank}
 	s.faults = []string{"list-communication", "list-timeout", "attributes-communication", "read-communication", "list-internal", "list-denied"}
 	s.keys = []string{"a.yaml", "b.yaml"}
 
@@ -414,7 +414,7 @@ func (i *blobInst) Apply(a Action) stepReport {
 		switch {
 		case !ok:
 			return obs{class: oGone}
-		case b.content == cEmpty:
+		case isEmptyContent(b.content):
 			return obs{class: oEmpty}
 		case b.ctype != "application/yaml":
 			return obs{class: oUnsupported}
